@@ -36,6 +36,9 @@ def bound(draw, n):
     return lo, max(hi, lo + 1)
 
 
+WINDOW_TYPES = {"int": int, "np64": np.int64, "np32": np.int32, "intp": np.intp}
+
+
 @st.composite
 def cases(draw):
     n_il, n_xl = draw(st.integers(3, 14)), draw(st.integers(3, 14))
@@ -52,7 +55,9 @@ def cases(draw):
         prior = {"n_il": (i0 + 1 if i0 >= 1 and draw(st.booleans()) else draw(st.integers(2, n_il))), "vseed": draw(st.integers(0, 2 ** 32 - 1))}
     return {"src": src, "window": [i0, i1, x0, x1], "reduce": draw(st.booleans()), **({"prior": prior} if prior else {}),
             "mode": draw(st.sampled_from(["heuristic", "thorough", "exhaustive", "strip"])),
-            "setting": {"rate": rate, "blockshape": list(bs)}, "via": draw(st.sampled_from(["api", "api", "cli"]))}
+            "setting": {"rate": rate, "blockshape": list(bs)}, "via": draw(st.sampled_from(["api", "api", "cli"])),
+            # the form the window ordinals arrive in (np.argmin / array indexing hand over NumPy integers)
+            "wtype": draw(st.sampled_from(["int", "int", "np64", "np32", "intp"]))}
 
 
 def run_case(case, ctx):
@@ -90,7 +95,7 @@ def run_case(case, ctx):
     win = os.path.join(d, "win.sgz")
     # the windowed conversion comes first (directly after the optional prior conversion), the reference after it
     if case["via"] == "api":
-        conv.segy_convert(S.path, win, rate, bs, reduce_iops=case["reduce"], header_detection=mode, window=(i0, i1, x0, x1))
+        conv.segy_convert(S.path, win, rate, bs, reduce_iops=case["reduce"], header_detection=mode, window=tuple(WINDOW_TYPES[case.get("wtype") or "int"](v) for v in (i0, i1, x0, x1)))
         if have_ref:
             conv.segy_convert(ref_sgy, ref, rate, bs, header_detection=mode)
     else:
